@@ -64,6 +64,12 @@ def gen_cases(tier, seed):
                     i += 1
                     yield {'family': fam, 'workers': w, 'pred': pred, 'n': n, 'idx': i, 'seed': seed, 'rep': 0,
                            'layout': 'single', 'yield_injection': False}
+    # parallelize placed after a step that reads its rows back from a spilled KVFile (sort_rows over more rows than the
+    # 10240-entry cache) and, as a control, after the same step without spill
+    for n in (3000, 12000):
+        i += 1
+        yield {'family': 'after_sort', 'workers': 2, 'pred': 'none', 'n': n, 'idx': i, 'seed': seed, 'rep': 0,
+               'layout': 'single', 'yield_injection': False}
     for fam, secs in pauses:
         for w in (2, 3):
             i += 1
@@ -132,6 +138,8 @@ def child_main(case, logpath, outpath):
     elif case['layout'] == 'two_selected':
         steps.append(lab.source('b', F, [{'id': 1000 + i, 'v': 'b%d' % i} for i in range(n)]))
         sel = None
+    if case['family'] == 'after_sort':
+        steps.append(d.sort_rows('{id}'))
     steps.append(d.parallelize(row_func, num_processors=w, resources=sel, predicate=pred))
     t0 = time.time()
     res = {'returned': False}
@@ -232,6 +240,9 @@ def run_case(case):
             pass
 
     def add(kind, msg, mech=None):
+        if case['family'] == 'after_sort' and n > 10240 and kind in ('deadlock', 'run_failed', 'exactly_once', 'shutdown'):
+            # the control case (same pipeline, no spill) is part of every run: only the spilled one may carry this tag
+            mech = 'upstream_read_from_producer_thread/spilled_kvfile'
         viol.append({'kind': kind, 'mech': mech or kind, 'msg': '%r: %s' % (cfg, msg), 'config': cfg})
     ev = schedlab.read_log(logpath) if os.path.exists(logpath) else []
     counters['events_logged'] += len(ev)
